@@ -290,4 +290,222 @@ theorem C02_adjacent_tokens_differ (s : Word) (i : Nat) (h : i + 1 < (tokenizeWo
   obtain ⟨b, hb⟩ := C02_tokens_alternate' cc s
   exact alternates_adjacent cc b _ hb i h
 
+/-! ### the tokenizer is characterised by its output shape: any decomposition of a text into maximal runs
+is the tokenizer's answer -/
+
+private theorem run_true' : ∀ (cs cur rest : Word), cs.all (isWordChar cc) = true →
+    tokenizeAux cc (some true) cur (cs ++ rest) = tokenizeAux cc (some true) (cs.reverse ++ cur) rest
+  | [], cur, rest, _ => rfl
+  | x :: xs, cur, rest, h => by
+    rw [List.all_cons, Bool.and_eq_true] at h
+    rw [List.cons_append, aux_true, if_pos h.1, run_true' xs (x :: cur) rest h.2, List.reverse_cons,
+      List.append_assoc]
+    rfl
+
+private theorem run_false' : ∀ (cs cur rest : Word), cs.all (fun c => !cc.isAlphanumeric c) = true →
+    tokenizeAux cc (some false) cur (cs ++ rest) = tokenizeAux cc (some false) (cs.reverse ++ cur) rest
+  | [], cur, rest, _ => rfl
+  | x :: xs, cur, rest, h => by
+    rw [List.all_cons, Bool.and_eq_true] at h
+    have hx : ¬ cc.isAlphanumeric x = true := by
+      cases ha : cc.isAlphanumeric x with
+      | false => simp
+      | true => rw [ha] at h; exact absurd h.1 (by simp)
+    rw [List.cons_append, aux_false, if_neg hx, run_false' xs (x :: cur) rest h.2, List.reverse_cons,
+      List.append_assoc]
+    rfl
+
+/-- `isRuns b l`: `l` is a list of maximal runs, the first of kind `b` (`true` = word token): word tokens
+and separator tokens alternate, and the token after a word token does not start with a character that
+could have continued the word (`-`, `'`). -/
+def isRuns : Bool → List Word → Bool
+  | _, [] => true
+  | true, t :: ts =>
+    isWordTok cc t && (match ts with | [] => true | u :: _ => !(u.head?.any (isWordChar cc))) && isRuns false ts
+  | false, t :: ts => isSepTok cc t && isRuns true ts
+
+/-- **any decomposition into maximal runs is the tokenizer's answer** -/
+theorem tokenize_of_isRuns : ∀ (l : List Word) (b : Bool), isRuns cc b l = true →
+    tokenizeWords cc l.flatten = l
+  | [], _, _ => by unfold tokenizeWords; rw [List.flatten_nil, aux_nil]; rfl
+  | [t], true, h => by
+    simp only [isRuns, Bool.and_true] at h
+    rw [List.flatten_cons, List.flatten_nil, List.append_nil]; exact tokenize_wordTok cc t h
+  | [t], false, h => by
+    simp only [isRuns, Bool.and_true] at h
+    rw [List.flatten_cons, List.flatten_nil, List.append_nil]; exact tokenize_sepTok cc t h
+  | t :: u :: ts, true, h => by
+    simp only [isRuns, Bool.and_eq_true] at h
+    obtain ⟨⟨ht, hu⟩, hs, hrest⟩ := h
+    have ih := tokenize_of_isRuns (u :: ts) false (by simp only [isRuns, Bool.and_eq_true]; exact ⟨hs, hrest⟩)
+    cases t with
+    | nil => cases ht
+    | cons c cs =>
+      cases u with
+      | nil => cases hs
+      | cons d ds =>
+        unfold isWordTok at ht
+        rw [Bool.and_eq_true] at ht
+        have hd : ¬ isWordChar cc d = true := by simpa using hu
+        have hda : cc.isAlphanumeric d = false := by
+          cases ha : cc.isAlphanumeric d with
+          | false => rfl
+          | true => exact absurd (by unfold isWordChar; rw [ha]; rfl) hd
+        have e : (List.flatten ((c :: cs) :: (d :: ds) :: ts)) = c :: (cs ++ d :: (ds ++ ts.flatten)) := by
+          simp
+        have e2 : (List.flatten ((d :: ds) :: ts)) = d :: (ds ++ ts.flatten) := by simp
+        rw [e2, words_cons, hda] at ih
+        rw [e, words_cons, ht.1, run_true' cc cs [c] _ ht.2, aux_true, if_neg hd, ih]
+        simp
+  | t :: u :: ts, false, h => by
+    simp only [isRuns, Bool.and_eq_true] at h
+    obtain ⟨ht, hrest⟩ := h
+    have ih := tokenize_of_isRuns (u :: ts) true (by simp only [isRuns, Bool.and_eq_true]; exact hrest)
+    obtain ⟨⟨hu, _⟩, _⟩ := hrest
+    cases t with
+    | nil => cases ht
+    | cons c cs =>
+      cases u with
+      | nil => cases hu
+      | cons d ds =>
+        unfold isSepTok at ht
+        rw [Bool.and_eq_true, List.all_cons, Bool.and_eq_true] at ht
+        unfold isWordTok at hu
+        rw [Bool.and_eq_true] at hu
+        have hc : cc.isAlphanumeric c = false := by
+          cases ha : cc.isAlphanumeric c with
+          | false => rfl
+          | true => rw [ha] at ht; exact absurd ht.2.1 (by simp)
+        have e : (List.flatten ((c :: cs) :: (d :: ds) :: ts)) = c :: (cs ++ d :: (ds ++ ts.flatten)) := by
+          simp
+        have e2 : (List.flatten ((d :: ds) :: ts)) = d :: (ds ++ ts.flatten) := by simp
+        rw [e2, words_cons, hu.1] at ih
+        rw [e, words_cons, hc, run_false' cc cs [c] _ ht.2.2, aux_false, if_pos hu.1, ih]
+        simp
+
+/-- the statement on the caller's side: if a text is cut into maximal runs, that cut is what `tokenize`
+returns — there is no other tokenization with this shape -/
+theorem C02_tokenizer_unique (s : Word) (l : List Word) (b : Bool) (hflat : l.flatten = s)
+    (hruns : isRuns cc b l = true) : tokenizeWords cc s = l := by
+  rw [← hflat]; exact tokenize_of_isRuns cc l b hruns
+
+/-- the first token produced from a non-empty current run starts with the first character of that run -/
+private theorem aux_head : ∀ (s : Word) (b : Bool) (a : Char) (cur : Word),
+    ∃ u us, tokenizeAux cc (some b) (a :: cur) s = u :: us ∧ u.head? = (a :: cur).getLast?
+  | [], b, a, cur => by
+    refine ⟨(a :: cur).reverse, [], ?_, ?_⟩
+    · rw [aux_nil]; rfl
+    · rw [List.head?_reverse]
+  | c :: cs, true, a, cur => by
+    rw [aux_true]
+    by_cases hw : isWordChar cc c = true
+    · rw [if_pos hw]
+      obtain ⟨u, us, h1, h2⟩ := aux_head cs true c (a :: cur)
+      exact ⟨u, us, h1, by rw [h2, List.getLast?_cons_cons]⟩
+    · rw [if_neg hw]
+      exact ⟨_, _, rfl, by rw [List.head?_reverse]⟩
+  | c :: cs, false, a, cur => by
+    rw [aux_false]
+    by_cases hw : cc.isAlphanumeric c = true
+    · rw [if_pos hw]
+      exact ⟨_, _, rfl, by rw [List.head?_reverse]⟩
+    · rw [if_neg hw]
+      obtain ⟨u, us, h1, h2⟩ := aux_head cs false c (a :: cur)
+      exact ⟨u, us, h1, by rw [h2, List.getLast?_cons_cons]⟩
+
+theorem aux_isRuns : ∀ (s : Word) (b : Bool) (cur : Word), CurOk cc b cur →
+    isRuns cc b (tokenizeAux cc (some b) cur s) = true
+  | [], b, cur, hcur => by
+    rw [aux_nil]
+    by_cases hc : cur.isEmpty = true
+    · rw [if_pos hc]; cases b <;> rfl
+    · rw [if_neg hc]
+      cases b with
+      | true =>
+        have : isWordTok cc cur.reverse = true := by simpa [CurOk] using hcur
+        simp [isRuns, this]
+      | false =>
+        have : isSepTok cc cur = true := by simpa [CurOk] using hcur
+        simp [isRuns, sepTok_reverse cc cur this]
+  | c :: cs, true, cur, hcur => by
+    rw [aux_true]
+    have hcur' : isWordTok cc cur.reverse = true := by simpa [CurOk] using hcur
+    by_cases hw : isWordChar cc c = true
+    · rw [if_pos hw]
+      refine aux_isRuns cs true (c :: cur) ?_
+      simp only [CurOk, if_true, List.reverse_cons]
+      exact wordTok_snoc cc _ c hcur' hw
+    · rw [if_neg hw]
+      have hc : cc.isAlphanumeric c = false := by
+        cases ha : cc.isAlphanumeric c with
+        | false => rfl
+        | true => exact absurd (by unfold isWordChar; rw [ha]; rfl) hw
+      have ih := aux_isRuns cs false [c] (by simp [CurOk, isSepTok, hc])
+      obtain ⟨u, us, h1, h2⟩ := aux_head cc cs false c []
+      rw [h1] at ih ⊢
+      have hw' : isWordChar cc c = false := by simpa using hw
+      simp only [isRuns, Bool.and_eq_true] at ih ⊢
+      refine ⟨⟨hcur', ?_⟩, ih⟩
+      rw [h2]; simp [hw']
+  | c :: cs, false, cur, hcur => by
+    rw [aux_false]
+    have hcur' : isSepTok cc cur = true := by simpa [CurOk] using hcur
+    by_cases hw : cc.isAlphanumeric c = true
+    · rw [if_pos hw]
+      have ih := aux_isRuns cs true [c] (by simp [CurOk, isWordTok, hw])
+      simp only [isRuns, Bool.and_eq_true]
+      exact ⟨sepTok_reverse cc cur hcur', ih⟩
+    · rw [if_neg hw]
+      refine aux_isRuns cs false (c :: cur) ?_
+      unfold isSepTok at hcur'
+      rw [Bool.and_eq_true] at hcur'
+      have : cc.isAlphanumeric c = false := by
+        cases ha : cc.isAlphanumeric c with
+        | false => rfl
+        | true => exact absurd ha hw
+      simp [CurOk, isSepTok, this, hcur'.2]
+
+/-- **the tokenizer's answer is a decomposition into maximal runs** -/
+theorem C02_tokenize_isRuns (c : Char) (cs : Word) :
+    isRuns cc (cc.isAlphanumeric c) (tokenizeWords cc (c :: cs)) = true := by
+  rw [words_cons]
+  apply aux_isRuns
+  cases ha : cc.isAlphanumeric c with
+  | false => simp [CurOk, isSepTok, ha]
+  | true => simp [CurOk, isWordTok, ha]
+
+/-- **the tokenizer, characterised exactly**: a list of tokens is the tokenization of a non-empty text
+iff it concatenates to the text and is a list of maximal runs starting with the kind of the text's first
+character. Nothing else about `Tokenize` is observable. -/
+theorem C02_tokenizer_spec (c : Char) (cs : Word) (l : List Word) :
+    tokenizeWords cc (c :: cs) = l ↔ (l.flatten = c :: cs ∧ isRuns cc (cc.isAlphanumeric c) l = true) := by
+  constructor
+  · intro h; subst h
+    refine ⟨?_, C02_tokenize_isRuns cc c cs⟩
+    rw [words_cons]
+    have : ∀ (s : Word) (b : Bool) (cur : Word), (tokenizeAux cc (some b) cur s).flatten = cur.reverse ++ s := by
+      intro s
+      induction s with
+      | nil =>
+        intro b cur; rw [aux_nil]
+        by_cases hc : cur.isEmpty = true
+        · rw [if_pos hc]; cases cur with
+          | nil => rfl
+          | cons _ _ => cases hc
+        · rw [if_neg hc]; simp
+      | cons x xs ih =>
+        intro b cur
+        cases b with
+        | true =>
+          rw [aux_true]; split
+          · rw [ih]; simp
+          · rw [List.flatten_cons, ih]; simp
+        | false =>
+          rw [aux_false]; split
+          · rw [List.flatten_cons, ih]; simp
+          · rw [ih]; simp
+    rw [this]; rfl
+  · intro ⟨h1, h2⟩
+    exact C02_tokenizer_unique cc _ l _ h1 h2
+
 end T2N.C02.Canon
